@@ -422,7 +422,20 @@ def run_c11(t, tier, res):
                "hostile": t.chance(1, 5)}       # DEL, odd spaces, zero-width characters: accepted by the trainer, so part of the model
     pws, opts = trainer.gen_list(t, flavour)
     scratch.fresh_disk()
-    tr = trainer.train(pws, opts)
+    if t.chance(1, 40 if tier == "quick" else 10):
+        # a `uniq -c` list dominated by one password (see C18): the only way a transition reaches the top level 10
+        n = opts["ngram"]
+        base = ("1234abcd"[:t.between(n, n + 2)])
+        lines = ["%d %s" % (t.between(45000, 120000), base)]
+        extra = [base[:-1] + c for c in t.sample(list("79xz!"), t.between(1, 3))]
+        for e in extra:
+            lines.append("%d %s" % (t.between(1, 3), e))
+        opts = dict(opts, prefixcount=True, encoding="utf-8")
+        tr = trainer.train(None, opts, raw=("\n".join(lines) + "\n").encode("utf-8"))
+        pws = [base] + extra + [e + "7" for e in extra] + [base + base[-1]]
+        res.stats["dominant_password_lists"] += 1
+    else:
+        tr = trainer.train(pws, opts)
     if flavour.get("large"):
         res.stats["large_lists_trained" if tr.ok else "large_lists_not_trained"] += 1
     res.sample = {"passwords": pws[:15], "n": len(pws), "opts": opts}
